@@ -12,12 +12,38 @@ import (
 	gethcommon "github.com/ethereum/go-ethereum/common"
 	gethcore "github.com/ethereum/go-ethereum/core/types"
 
+	"github.com/ethereum/go-ethereum/core/vm"
 	"github.com/NibiruChain/nibiru/v2/x/common/testutil/testapp"
+	"github.com/NibiruChain/nibiru/v2/x/evm/embeds"
 	"github.com/NibiruChain/nibiru/v2/x/evm/evmtest"
+	"github.com/NibiruChain/nibiru/v2/x/evm/precompile"
 	"github.com/NibiruChain/nibiru/v2/x/evm/statedb"
 
 	"verif/harness/internal/hx"
 )
+
+// sdbEnterPrecompile runs the REAL entry sequence of a Nibiru precompile call (precompile.OnRunStart: journal entry with the
+// multistore snapshot, per-tx call limit, intermediate flush of the dirty StateDB into the cache context) on `db` and returns the
+// cache context the precompile body would work on. A call without side effect enters through a query method (whoAmI), one with a
+// side effect through a mutating method (bankMsgSend): the entry sequence must not depend on which.
+func sdbEnterPrecompile(db *statedb.StateDB, mutating bool) (sdk.Context, error) {
+	abi := embeds.SmartContract_FunToken.ABI
+	var input []byte
+	var err error
+	if mutating {
+		input, err = abi.Pack("bankMsgSend", "nibi1qqqqqqqqqqqqqqqqqqqqqqqqqqqqqqqqq3mcxl", "unibi", big.NewInt(1))
+	} else {
+		input, err = abi.Pack("whoAmI", "nibi1qqqqqqqqqqqqqqqqqqqqqqqqqqqqqqqqq3mcxl")
+	}
+	if err != nil {
+		panic(err)
+	}
+	res, err := precompile.OnRunStart(&vm.EVM{StateDB: db}, input, abi, 50_000_000)
+	if err != nil {
+		return sdk.Context{}, err
+	}
+	return res.CacheCtx, nil
+}
 
 func init() { runners["sdb"] = runStateDB }
 
@@ -182,11 +208,11 @@ func runStateDB(r *hx.R, n int, w *hx.W, _ []string) error {
 				case "revert":
 					db.RevertToSnapshot(int(num(2)))
 				case "precompile":
-					cacheCtx, je := db.CacheCtxForPrecompile()
-					if err := db.SavePrecompileCalledJournalChange(je); err != nil {
-						return "limit " + renderMisc(db) + " C:" + renderStore(*db.GetCacheContext())
-					}
-					if err := db.CommitCacheCtx(); err != nil {
+					cacheCtx, err := sdbEnterPrecompile(db, a[2] != "none")
+					if err != nil {
+						if strings.Contains(err.Error(), "exceeded maximum number") {
+							return "limit " + renderMisc(db) + " C:" + renderStore(*db.GetCacheContext())
+						}
 						return "flush-error"
 					}
 					out := "ok"
@@ -369,11 +395,11 @@ func runStateDB(r *hx.R, n int, w *hx.W, _ []string) error {
 					op = fmt.Sprintf("sdb precompile move %d %d %d", a, b, amt)
 				}
 				res = hx.Recover(func() string {
-					cacheCtx, je := db.CacheCtxForPrecompile()
-					if err := db.SavePrecompileCalledJournalChange(je); err != nil {
-						return "limit " + renderMisc(db) + " C:" + renderStore(*db.GetCacheContext())
-					}
-					if err := db.CommitCacheCtx(); err != nil {
+					cacheCtx, err := sdbEnterPrecompile(db, kind != 0)
+					if err != nil {
+						if strings.Contains(err.Error(), "exceeded maximum number") {
+							return "limit " + renderMisc(db) + " C:" + renderStore(*db.GetCacheContext())
+						}
 						return "flush-error"
 					}
 					out := "ok"
